@@ -143,6 +143,11 @@ func (lb *WeightedRandomLoadBalancer) ChooseServer(req *httpprot.Request) *Serve
 		return nil
 	}
 
+	// no server has a weight (the default): fall back to a uniform choice
+	if lb.totalWeight <= 0 {
+		return lb.Servers[rand.Intn(len(lb.Servers))]
+	}
+
 	randomWeight := rand.Intn(lb.totalWeight)
 	for _, server := range lb.Servers {
 		randomWeight -= server.Weight
